@@ -410,6 +410,75 @@ def variant_pairs(chk, work, base):
                mismatches=bad[0], branches=branches)
 
 
+def window_statistic_pairs(chk, work, base):
+    """Paired real runs for decisions taken on a whole-window STATISTIC of a rural column (max / min / mean /
+    'all readings <= 1, so it must be a fraction' / 'all equal, so the sensor is dead'): the hours up to the cut hold
+    a degenerate but legal series in one or several modelled columns (t1_util.DEGENERATE), in BOTH files; in one file
+    the series simply continues to the end of the window, in the other the later rows are ordinary. A point-wise
+    reading cannot tell the two apart before the cut; anything decided on the window can."""
+    import s1_util as S
+    import t1_util as T1
+    rng = chk.rng
+    thorough = chk.tier == 'thorough'
+    bad, total, branches, skipped = [0], 0, {}, 0
+    members = [('combined: ' + ' + '.join(T1.COMBINED_LOW), T1.COMBINED_LOW), (None, ['rh<=1 (looks like a fraction)'])]
+    if thorough:
+        members += [('combined: ' + ' + '.join(T1.COMBINED_HIGH), T1.COMBINED_HIGH)] + [(None, [k]) for k in T1.DEGENERATE]
+    else:
+        members.append((None, [rng.choice([k for k in T1.DEGENERATE if k != 'rh<=1 (looks like a fraction)'])]))
+    for mi, (label, names) in enumerate(members):
+        label = label or names[0]
+        month, day = rng.choice([(1, 1), (3, 30), (6, 29), (9, 14), (11, 2)])
+        first = 8 + 24 * S.doy0(month, day)
+        h = rng.randint(2, 21)
+        attrs = dict(month=month, day=day, nday=1, dtsim=300)
+        src = S.copy_rows(base)
+        T1.degenerate_prefix(src, first, h + 1, names)              # ordinary rows after the cut
+        alt = S.copy_rows(base)
+        T1.degenerate_prefix(alt, first, 48, names)                 # the series continues (also into the next day)
+        a, e1 = try_run(S.save_epw(src, os.path.join(work, 'ws_src.epw')), work, 'wsa.epw', **attrs)
+        b, e2 = try_run(S.save_epw(alt, os.path.join(work, 'ws_alt.epw')), work, 'wsb.epw', **attrs)
+        case = {'kind': 'degenerate-series-up-to-the-cut', 'series': label, 'params': attrs, 'cut_hour': h,
+                'first_row': first, 'cells of the first window rows (cols 6,8,9,12,14,15,20,21)':
+                    [[src[first + n][c] for c in MODELLED] for n in range(3)],
+                'how': 't1_util.degenerate_prefix(rows, first_row, cut_hour + 1, names) vs (rows, first_row, 48, names)'}
+        if a is None or b is None:
+            skipped += 1
+            chk.notes.append('window-statistic pair %s %s skipped: %s %s' % (label[:40], attrs, e1, e2))
+        else:
+            total += 1
+            branches['after-cut'] = branches.get('after-cut', 0) + 1
+            cmp_runs(chk, 'degenerate series (%s) up to the cut in both files; later rows ordinary in one file, the '
+                     'series continued in the other' % label, case, a, b, first, h + 1, bad)
+        if mi == 0 or thorough:
+            # one more day from the same start: day 1 entirely degenerate, day 2 ordinary
+            day1 = S.copy_rows(base)
+            T1.degenerate_prefix(day1, first, 24, names)
+            pth = S.save_epw(day1, os.path.join(work, 'ws_day1.epw'))
+            c1, e3 = try_run(pth, work, 'wsc.epw', **attrs)
+            c2, e4 = try_run(pth, work, 'wsd.epw', **dict(attrs, nday=2))
+            if c1 is None or c2 is None:
+                skipped += 1
+                chk.notes.append('window-statistic longer-window pair %s skipped: %s %s' % (label[:40], e3, e4))
+            else:
+                total += 1
+                branches['longer-window'] = branches.get('longer-window', 0) + 1
+                cmp_runs(chk, 'degenerate series (%s) during the whole first day, ordinary second day: nday = 1 vs 2'
+                         % label, dict(case, kind='degenerate-first-day-longer-window', cut_hour=23,
+                                       other_params=dict(attrs, nday=2)), c1, c2, first, 24, bad)
+    chk.direct('paired-runs(degenerate series up to the cut: whole-window statistics)', total, total,
+               'pairs of real generate;simulate;write_epw runs (1 day, dt 300) on copies of the Singapore file in which '
+               'the hours up to a random cut hold a degenerate but legal series in modelled columns, identical in both '
+               'files: relative humidity all <= 1 % (0.4 .. 1.0, what a fraction would look like), all zero, all 100, '
+               '100..110; wind all calm / all equal; wind direction all 0; direct and diffuse radiation all 0; infrared '
+               'all equal; dry bulb all equal / all <= 1; pressure all equal (also at the lower EPW limit) - quick tier: '
+               'all of the mild ones combined in one prefix, RH <= 1 alone, one random member alone; thorough: every '
+               'member alone. In one file the series continues to the end of the window, in the other the later rows '
+               'are the shipped ones: hours <= cut bit-identical (records and written cells). And the same start '
+               'simulated one more day when the whole first day is degenerate: all 24 hours bit-identical',
+               mismatches=bad[0], branches=dict(branches, skipped=skipped))
+
+
 def run(chk):
     from props import step
     chk.proof(MODULE, THEOREMS + step.THEOREMS, extra_modules=[step.MODULE])
@@ -559,6 +628,7 @@ def run(chk):
                'swapping); timesteps cycle through 300, 600, 48, 100, 450, 225, 150, 360',
                mismatches=bad, branches=branches)
     variant_pairs(chk, work, base)
+    window_statistic_pairs(chk, work, base)
     # composition C: the physics of one step as one Lean function, tied exactly to the real loop body
     step.run_step(chk)
     chk.assumptions.append('the theorems hold for ANY physics that is a function of (state, current forcing row, '
